@@ -21,6 +21,22 @@ namespace wc
         const char* text; // expected value on the wire
         std::function<void(Http::Header::Collection&)> add;
     };
+    // a handler-defined header whose writer leaves a sticky format flag on the stream it was given (hexadecimal):
+    // what is written after it - other headers, Content-Length - must not be affected
+    class XTraceId : public Http::Header::Header
+    {
+    public:
+        NAME("X-Trace-Id")
+        explicit XTraceId(unsigned id = 0)
+            : id_(id)
+        { }
+        void parse(const std::string&) override { }
+        void write(std::ostream& os) const override { os << std::hex << id_; }
+
+    private:
+        unsigned id_;
+    };
+
     inline const std::vector<HeaderChoice>& rsp_headers()
     {
         static std::vector<HeaderChoice> v = {
@@ -31,6 +47,7 @@ namespace wc
             { "Access-Control-Allow-Origin", "*", [](Http::Header::Collection& h) { h.add<Http::Header::AccessControlAllowOrigin>("*"); } },
             { "Content-Encoding", "gzip", [](Http::Header::Collection& h) { h.add<Http::Header::ContentEncoding>(Http::Header::Encoding::Gzip); } },
             { "Allow", "GET, POST", [](Http::Header::Collection& h) { h.add<Http::Header::Allow>(std::vector<Http::Method> { Http::Method::Get, Http::Method::Post }); } },
+            { "X-Trace-Id", "ff", [](Http::Header::Collection& h) { h.add<XTraceId>(255u); } },
         };
         return v;
     }
@@ -420,11 +437,11 @@ static void build_space(bool thorough, int Kops)
         gSizes = { 0, 1, 9, 10, 16, 17, 255, 256, 4096, 65536 };
         gInts  = { 0, 7, 10, 105, -5 };
     }
-    gHdrSets    = { {}, { 0 }, { 1 }, { 0, 2, 3 }, { 4, 5, 6 }, { 1, 3 } };
+    gHdrSets    = { {}, { 0 }, { 1 }, { 0, 2, 3 }, { 4, 5, 6 }, { 1, 3 }, { 7 }, { 7, 0 } };
     gCookieSets = { {}, { 0 }, { 1, 2 } };
     if (!thorough)
     {
-        gHdrSets    = { {}, { 0, 2, 3 }, { 1, 6 } };
+        gHdrSets    = { {}, { 0, 2, 3 }, { 1, 6 }, { 7 } };
         gCookieSets = { {}, { 1, 2 } };
     }
     gen_programs(Kops, !thorough);
